@@ -41,10 +41,11 @@ N = {"quick": 10, "thorough": 400}
 TOL = 1e-10
 RULE = ("grid (2-D/3-D Cartesian with perturbed interior nodes, structured triangles/tetrahedra, Delaunay grids of 4-8 random "
         "lattice points) x scheme (mpfa/mpsa/biot) x random SPD tensors (dyadic) x random Dirichlet faces x split "
-        "(num_subproblems 1..9 or max_memory = peak/k) x optional second split x optional numba run x optional partial "
+        "(num_subproblems 1..9 or max_memory = peak/k; 35% of the cases come from a multi-owner family - triangle [3,2]/[4,2] or tetrahedral "
+        "[2,1,1]/[2,2,1] grids with 2-9 subproblems - where some faces are owned by >= 3 subproblems, for all three schemes) x optional second split x optional numba run x optional partial "
         "rediscretisation (mode cells/faces/nodes, 1-3 random ids, parameters changed on the ids or not, applied fresh + in place "
-        "via the parameter flag or via update_discretization()); non-trivial = the real decomposition has >= 2 subproblems or a "
-        "partial update is present; distinct = distinct case JSON")
+        "via the parameter flag or via update_discretization()); non-trivial = some face is owned by >= 2 real subproblems or a "
+        "partial update is present (the maximal ownership count per scheme is reported in the input distribution); distinct = distinct case JSON")
 TRUSTED = [
     "modelled, not verified: the local MPxA discretisation itself (what each subproblem computes) - it enters the theorems only through "
     "the locality hypothesis 'a subproblem reproduces the whole-grid rows of the faces it owns', which the oracle checks on the real code "
@@ -101,6 +102,22 @@ def gen_case(rng, tier):
         split = {"num_subproblems": rng.choice([1, 2, 2, 2, 3, 3, 4, 5, 6, 9])}
     else:
         split = {"max_memory_div": rng.choice([2, 3, 4, 7])}
+    if rng.random() < 0.35:
+        # multi-owner family: simplex grids split finely enough that some faces lie in THREE or more faces_in_subgrid
+        # (calibrated on the real partition_coordinates decompositions; Cartesian grids and 2 subproblems never get there)
+        scheme = rng.choice(["mpfa", "mpsa", "biot"])
+        grid, split = rng.choice([
+            ({"type": "tri", "dims": [3, 2], "pert": 0}, {"num_subproblems": rng.randint(5, 7)}),
+            ({"type": "tri", "dims": [4, 2], "pert": 0}, {"num_subproblems": rng.randint(5, 9)}),
+            ({"type": "tet", "dims": [2, 1, 1], "pert": 0}, {"num_subproblems": rng.randint(2, 6)}),
+            ({"type": "tet", "dims": [2, 2, 1], "pert": 0}, {"num_subproblems": rng.randint(4, 8)}),
+        ] if big else [
+            ({"type": "tri", "dims": [3, 2], "pert": 0}, {"num_subproblems": rng.randint(5, 7)}),
+            ({"type": "tri", "dims": [4, 2], "pert": 0}, {"num_subproblems": rng.randint(5, 9)}),
+            ({"type": "tet", "dims": [2, 1, 1], "pert": 0}, {"num_subproblems": rng.randint(2, 6)}),
+        ])
+        if grid["type"] == "tri" and rng.random() < 0.5:
+            grid = dict(grid, pert=rng.randint(1, 999))
     case = {
         "grid": grid,
         "scheme": scheme,
@@ -837,11 +854,16 @@ def _oracle(case):
 
 
 # ----------------------------------------------------------------------------- bookkeeping for the evidence
+def _max_owners(rec):
+    import numpy as np
+    return int(np.bincount(np.concatenate([s["F"] for s in rec["subs"]])).max())
+
+
 def nontrivial(case):
     rec = _rec(case)
     if "fatal" in rec:
         return False
-    return len(rec["subs"]) >= 2 or case.get("partial") is not None
+    return _max_owners(rec) >= 2 or case.get("partial") is not None
 
 
 def shrink_candidates(case):
@@ -894,8 +916,14 @@ def stats(cases, impl_outs):
         out["grid"][gk] = out["grid"].get(gk, 0) + 1
         ns = str(len(rec["subs"]))
         out["subproblems"][ns] = out["subproblems"].get(ns, 0) + 1
-        mr = str(int(np.bincount(np.concatenate([s["F"] for s in rec["subs"]])).max()))
+        mo = _max_owners(rec)
+        mr = str(mo)
         out["max_face_repetition"][mr] = out["max_face_repetition"].get(mr, 0) + 1
+        by = out.setdefault("max_face_owners_by_scheme", {})
+        by[c["scheme"]] = max(by.get(c["scheme"], 0), mo)
+        if mo >= 3:
+            ge3 = out.setdefault("cases_with_a_face_owned_by_3_or_more_subproblems", {})
+            ge3[c["scheme"]] = ge3.get(c["scheme"], 0) + 1
         if any(i > 0 and s["F"].size == rec["nf"] for i, s in enumerate(rec["subs"])):
             out["late_full_cover_subproblem"] += 1
         if c.get("numba"):
